@@ -9,8 +9,10 @@ segment of it), so memory is *consistent by construction* — that the real debu
 pointer it just made is what the correspondence run checks.  A value remembers its full in-memory image where an
 operator changes the value without changing its address (`slice` on arrays/vectors): `&` takes the address of the image.
 
-Rust faults are explicit (`Res.panic`): `items.drain(..left)` past the end, `right - left` below zero (DESIGN 2.4; these
-are C08's recorded defects, mirrored here so that the model is the code).
+A slice whose range does not fit (`left > len`, `right < left`, a pointer to a zero-sized type) has no result
+(`Res.none`); before BugStalker ccf13b4 / d97590b these were panics (`items.drain(..left)` past the end,
+`right - left` below zero, `chunks(0)`: C08's repaired defects).  `Res.panic` is still threaded through `eval`,
+no operator produces it any more.
 Core Lean only.
 -/
 namespace BsVerif.Dqe
@@ -134,16 +136,16 @@ end
 
 /-! ## operators -/
 
-/-- `ArrayValue::slice` -/
+/-- `ArrayValue::slice`: `None` when `left > len` or `right < left` -/
 def sliceItems (items : List Val) (l r : Option Nat) : Res (List Val) :=
   let lo := l.getD 0
-  if lo > items.length then .panic "drain-left"
+  if lo > items.length then .none
   else
     let rest := items.drop lo
     match r with
     | none => .ok rest
     | some r =>
-      if r < lo then .panic "sub"
+      if r < lo then .none
       else if r - lo < rest.length then .ok (rest.take (r - lo)) else .ok rest
 
 def isStrKey (name : Str) : Val → Bool
@@ -178,8 +180,8 @@ def isUnit : List Val → Bool
 /-- `PointerValue::slice` within the known run; reads past it are outside the model (`other`) -/
 def ptrSlice (run : List Val) (l : Option Nat) (r : Nat) : Res Val :=
   let lo := l.getD 0
-  if r < lo then .panic "sub"
-  else if isUnit run then .panic "chunk0"        -- `raw_data.chunks(0)` for a zero-sized pointee
+  if isUnit run then .none                       -- `deref_size == 0`: a zero-sized pointee
+  else if r < lo then .none                      -- `right.checked_sub(left)?`
   else if r ≤ run.length then .ok (.array false ((run.drop lo).take (r - lo)) ((run.drop lo).take (r - lo)))
   else .ok .other
 
